@@ -62,6 +62,7 @@ func runC05(c *Collector, r *Rng, thorough bool) {
 	c05GovernedGrid(c)
 	c05IVPairs(c)
 	c05BigIntNeighbours(c)
+	c05TinyProtected(c)
 	for _, kind := range kinds {
 		for i := 0; i < n; i++ {
 			cfg := defaultCfg
@@ -342,6 +343,33 @@ func c05BigIntNeighbours(c *Collector) {
 					run("DSign1", wTag(18, -1, wArr(-1, wBstr(nil, -1), wMap(-1, wInt(7, -1), wArr(-1, pb, ub, wBstr([]byte{1}, -1))), wBstr([]byte("p"), -1), wBstr([]byte{1}, -1))))
 				}
 			}
+		}
+	}
+}
+
+// c05TinyProtected: protected buckets whose byte string wraps exactly one octet (every value) or two octets (every map,
+// array, string and tag head followed by every kind of second octet): only a0 is a map with nothing missing. As a bare
+// bucket and inside a COSE_Sign1, a COSE_Signature and a nested countersignature.
+func c05TinyProtected(c *Collector) {
+	run := func(kind string, b []byte) {
+		d := decodeCase(c, "tiny-protected", kind, b)
+		c05Oracle(c, kind, b, &d)
+	}
+	wrap := func(content []byte) {
+		pb := append([]byte{0x40 | byte(len(content))}, content...)
+		run("DProt", pb)
+		if content[0]>>5 == 5 || content[0] == 0x40 || content[0] == 0x80 {
+			run("DSign1", append(append([]byte{0xd2, 0x84}, pb...), 0xa0, 0x41, 0x70, 0x41, 0x01))
+			run("DSignature", append(append([]byte{0x83}, pb...), 0xa0, 0x41, 0x01))
+			run("DSign1", append(append(append([]byte{0xd2, 0x84, 0x40, 0xa1, 0x07, 0x83}, pb...), 0xa0, 0x41, 0x01), 0x41, 0x70, 0x41, 0x01))
+		}
+	}
+	for b := 0; b < 256; b++ {
+		wrap([]byte{byte(b)})
+	}
+	for _, first := range []byte{0xa0, 0xa1, 0xa2, 0xb7, 0xb8, 0xbf, 0x80, 0x40, 0x60, 0xc0} {
+		for _, second := range []byte{0x00, 0x01, 0x17, 0x18, 0x20, 0x40, 0x60, 0x80, 0xa0, 0xf6, 0xff} {
+			wrap([]byte{first, second})
 		}
 	}
 }
